@@ -15,23 +15,29 @@ ASSUME ScanLiteralsOK
 LineKinds == { Codes("PKGNAME=a-1"), Codes("PKGNAME=b-2nb1"), Codes("CATEGORIES=x"), Codes("  CATEGORIES= y z  "),
                Codes("MAINTAINER=m=n"), Codes("ALL_DEPENDS="), Codes("ALL_DEPENDS=a>=1:../../c/a  b-[0-9]*:c/b"),
                Codes("MULTI_VERSION=A=1 B=2"), Codes("SCAN_DEPENDS=/p/q"), Codes("UNKNOWN=u"), <<>>, Codes("no equals here"),
-               Codes("ALL_DEPENDS=oops"), Codes("PKG_LOCATION=bad"), Codes("PKG_LOCATION=c/a") }
+               Codes("ALL_DEPENDS=oops"), Codes("PKG_LOCATION=bad"), Codes("PKG_LOCATION=c/a"),
+               Codes("PKG_LOCATION=c/.."), Codes("ALL_DEPENDS=b>=1:c/..") }
 
-VARIABLES lines, s, errAt, phase
-vars == <<lines, s, errAt, phase>>
-Init == lines = <<>> /\ s = InitScan /\ errAt = 0 /\ phase = "read"
+VARIABLES lines, s, errAt, errKind, phase
+vars == <<lines, s, errAt, errKind, phase>>
+Init == lines = <<>> /\ s = InitScan /\ errAt = 0 /\ errKind = "Other" /\ phase = "read"
 Line == /\ phase = "read" /\ Len(lines) < MaxLines
         /\ \E l \in LineKinds : lines' = Append(lines, l) /\ s' = StepLine(s, l)
-        /\ UNCHANGED <<errAt, phase>>
-IoError == phase = "read" /\ errAt' = Len(lines) + 1 /\ s' = StepIoError(s) /\ phase' = "end" /\ UNCHANGED lines
-Eof == phase = "read" /\ s' = StepEof(s) /\ phase' = "end" /\ UNCHANGED <<lines, errAt>>
+        /\ UNCHANGED <<errAt, errKind, phase>>
+\* a hard error ends the read; Interrupted is retried: the reader carries on (here: to end-of-file)
+IoError == /\ phase = "read" /\ errAt = 0 /\ errAt' = Len(lines) + 1
+           /\ \E kd \in {"Other", "WouldBlock", "Interrupted"} :
+                 /\ errKind' = kd
+                 /\ s' = IF kd = "Interrupted" THEN StepEof(StepIoErrorKind(s, kd)) ELSE StepIoErrorKind(s, kd)
+           /\ phase' = "end" /\ UNCHANGED lines
+Eof == phase = "read" /\ s' = StepEof(s) /\ phase' = "end" /\ UNCHANGED <<lines, errAt, errKind>>
 Next == Line \/ IoError \/ Eof
 Spec == Init /\ [][Next]_vars
 
 Result == IF s.st = "failed" THEN <<"err">> ELSE <<"ok", s.recs>>
 \* the loop computes the declarative reading
-LoopIsRef == (phase = "end" /\ errAt = 0) => Result = ReadRef(lines)
-ErrorFails == (phase = "end" /\ errAt # 0) => Result = <<"err">>
+LoopIsRef == (phase = "end" /\ (errAt = 0 \/ errKind = "Interrupted")) => Result = ReadRef(lines)
+ErrorFails == (phase = "end" /\ errAt # 0 /\ errKind # "Interrupted") => Result = <<"err">>
 \* one record per PKGNAME= line when the read succeeds
 OnePerName == (phase = "end" /\ s.st = "done") =>
                 Len(s.recs) = Cardinality({i \in 1..Len(lines) : StartsWith(TrimU(lines[i]), LitPkgnameEq)})
@@ -39,6 +45,6 @@ NoLeak == (phase = "end" /\ s.st = "done") =>
             \A i \in 1..Len(s.recs) : s.recs[i].scalars[5] \in {<<>>, <<<<120>>>>, <<Codes("y z")>>}
 
 Emit == phase = "end" =>
-          PrintT(<<"CASE", ToJson([op |-> "scanindex", in |-> [lines |-> lines, err_at |-> errAt, final_nl |-> "T"],
+          PrintT(<<"CASE", ToJson([op |-> "scanindex", in |-> [lines |-> lines, err_at |-> errAt, err_kind |-> errKind, err_mid |-> IF Len(lines) % 2 = 0 THEN "T" ELSE "F", final_nl |-> "T"],
                                    out |-> IF Result[1] = "err" THEN [err |-> "T"] ELSE [ok |-> Result[2]]])>>)
 =============================================================================
